@@ -196,27 +196,6 @@ end
 theorem sameDs_skel {d d' : Dataset} (h : SameDs d d') : skelDs d' = skelDs d := by
   simp only [skelDs, h.1, sameL_skel h.2]
 
-/-! ### `_quote` on names starting with `dap4` (the first 8 characters pass through unquoted) -/
-
-/-- `quoteName_nameOk` without its `dap4` exclusion: a name starting with `dap4` is still mapped into `NameOk` when the
-    8 characters `_quote` passes through are characters of `name_regexp` — every identifier (`dap4x`, `dap4_temp`) is. -/
-theorem quoteName_nameOk_any (raw : Text) (hne : raw ≠ []) (h : ∀ c ∈ raw, c ≠ '/' ∧ c.toNat < 128)
-    (hd : raw.take 4 = ['d', 'a', 'p', '4'] → ∀ c ∈ raw.take 8, isNameRe c = true) : NameOk (quoteName raw) := by
-  by_cases h4 : raw.take 4 = ['d', 'a', 'p', '4']
-  · unfold quoteName
-    rw [if_pos h4]
-    constructor
-    · cases raw with
-      | nil => exact absurd rfl hne
-      | cons a as => simp
-    · intro x hx
-      simp only [List.mem_append, List.mem_flatMap] at hx
-      rcases hx with hx | ⟨c, hc, hxc⟩
-      · exact hd h4 x hx
-      · have hm := List.mem_of_mem_drop hc
-        exact quoteChar_nameRe_all c (h c hm).1 (h c hm).2 x hxc
-  · exact quoteName_nameOk raw hne h h4
-
 /-! ### the boundary of the foreign-style domain: white space after a name -/
 
 /-- the names of the top-level variables of a parse result (a decidable observation of it) -/
